@@ -1,6 +1,9 @@
 package main
 
 import (
+	"fmt"
+
+	"verif/harness/c04/cx"
 	"verif/harness/hx"
 	"verif/harness/protox"
 )
@@ -12,8 +15,58 @@ func main() {
 			res.Imports = []string{"Lib.Bytes", "Proto", "Corr.Proto"}
 			res.CaseType = "protocase"
 			res.Checker = "proto_check"
-			res.Rule = "generated programs (1-3 stores x value placement x slot length 2-8 x op mix forcing new root/split/node removal/update) with a populated prefix; the subject transaction is run fault-free and once per injected failure at an interface call of its commit (fail = not performed, failafter = performed then reported failed); each run in a child process, state read back by a fresh process; distinct = distinct (program, fault) pairs; non-trivial = a fault is injected or the subject has > 2 ops"
+			res.Rule = "generated programs (1-3 stores x value placement x slot length 2-8 x op mix forcing new root/split/node removal/update) with a populated prefix; the subject transaction is run fault-free and once per injected failure at an interface call of its commit (fail = not performed, failafter = performed then reported failed); each run in a child process, state read back by a fresh process; plus concurrent histories: two writers adding disjoint keys to the same leaves of a store whose values live outside the nodes, under random gate schedules (the loser rolls back its partial phase 1, refetches, merges and retries), then a cold full traversal reading every value in a fresh process; distinct = distinct (program, fault) pairs / distinct concurrent programs; non-trivial = a fault is injected or the subject has > 2 ops / at least one writer merged"
 		}
-		return res, err
+		if err != nil || cfg.Replay != "" {
+			return res, err
+		}
+		// concurrent histories: the in-flight rollback before a refetch-and-retry must not remove data the
+		// retried commit publishes (value blobs of the re-merged items)
+		n := 6
+		if cfg.Tier == "thorough" {
+			n = 80
+		}
+		r := hx.NewRng(hx.NewRng(cfg.Seed).U64() + 10)
+		var jobs []cx.Job
+		for len(jobs) < n {
+			p := cx.GenDisjoint(r, "leaf")
+			if len(p.Writers) != 2 {
+				continue
+			}
+			p.Store.InNode = false
+			p.Schedule = cx.RandomSchedule(r, 2)
+			jobs = append(jobs, cx.Job{P: p, Bucket: "c10-conc", NoModel: true})
+		}
+		outs := cx.RunAll(jobs, 6, false)
+		for i, o := range outs {
+			p := jobs[i].P
+			merged := false
+			committed := 0
+			for _, w := range o.W {
+				if w.Merges > 0 {
+					merged = true
+				}
+				if w.Committed {
+					committed++
+				}
+			}
+			res.Seen(fmt.Sprintf("conc:%v:%v", p.Init, p.Writers), merged)
+			res.Count(fmt.Sprintf("concurrent.committed=%d", committed))
+			if merged {
+				res.Count("concurrent.merged")
+			}
+			if o.ChildErr != "" || o.SetupErr != "" || o.Stuck != "" {
+				res.Count("concurrent.unusable")
+				continue
+			}
+			res.Evaluations++
+			switch {
+			case o.DumpErr != "":
+				res.Fail("dangling-reference/concurrent-disjoint-adds", fmt.Sprintf("two writers adding disjoint keys to one store with out-of-node values (merged=%v, committed=%d): the cold traversal in a fresh process failed: %s", merged, committed, o.DumpErr), map[string]any{"concurrent": p})
+			case o.Dump != nil && o.Dump.Err != "":
+				res.Fail("dangling-reference/concurrent-disjoint-adds", fmt.Sprintf("two writers adding disjoint keys to one store with out-of-node values (merged=%v, committed=%d): the cold traversal in a fresh process failed: %s", merged, committed, o.Dump.Err), map[string]any{"concurrent": p})
+			}
+		}
+		return res, nil
 	})
 }
